@@ -822,7 +822,13 @@ def run_boundedprops(prop, tier, seed, known, lock):
            'known_hits': [], 'errors': [], 'samples': [], 'functions': [], 'assumptions': [
                'bounded tier: exact rational / integer arithmetic of CPython (fractions, math) is the oracle; nothing outside the enumerated domain is covered'],
            'coverage': {}}
-    n, d, fails, samples, rule = B.CHECKS[prop](seed, tier)
+    checks = dict(B.CHECKS)
+    if prop not in checks:
+        from pyvc import mpfrprops
+        checks.update(mpfrprops.CHECKS)
+        out['assumptions'].append('reference values: the system MPFR (libmpfr.so.6, %s) loaded through ctypes is trusted; each value is '
+                                  'enclosed by two evaluations at p+80 bits with rounding toward -inf and +inf' % mpfrprops.mpfr_version())
+    n, d, fails, samples, rule = checks[prop](seed, tier)
     out['samples'] = samples
     out['coverage'] = {'evaluations': n, 'distinct_nontrivial': d, 'rule': rule}
     seen = set()
